@@ -92,6 +92,17 @@ def main():
                     target = os.path.relpath(base, swt)
                     break
             if target is None:
+                # an earlier confirmation recorded it
+                try:
+                    old = json.load(open(os.path.join(ROOT, "seeded", sid, "meta.json")))
+                    target = old["steps"]["demo"][f]["dir"] if old.get("confirmed") else None
+                except Exception:
+                    target = None
+            if target is None and os.path.exists(os.path.join(src, "notes.md")):
+                m2 = re.search(r"([\w/]+)/" + re.escape(f), open(os.path.join(src, "notes.md")).read().replace("/tmp/seedwt-%s/" % sid, ""))
+                if m2 and os.path.isdir(os.path.join(wt, m2.group(1))):
+                    target = m2.group(1)
+            if target is None:
                 target = dirs[0] if dirs else "."
             dst = os.path.join(wt, target, f)
             shutil.copy(os.path.join(src, f), dst)
